@@ -77,8 +77,7 @@ def h_alias_ref(vf, node, fn, args):
 
 @reg('ALIAS', 'std::clone::Clone::clone', 'std::borrow::ToOwned::to_owned', 'ndarray::ArrayBase::to_owned',
      'ndarray::ArrayBase::view', 'ndarray::ArrayBase::into_owned', 'ndarray::ArrayBase::to_vec',
-     'burn::tensor::Tensor::detach', 'burn::tensor::Tensor::require_grad', 'burn::tensor::Tensor::from_inner',
-     'burn::tensor::Tensor::inner', 'burn::tensor::Tensor::into_scalar', 'burn::tensor::Tensor::to_data',
+     'burn::tensor::Tensor::require_grad', 'burn::tensor::Tensor::into_scalar', 'burn::tensor::Tensor::to_data',
      'burn::tensor::Tensor::into_data', 'burn::tensor::TensorData::convert', 'burn::tensor::TensorData::as_slice', 'burn::tensor::TensorData::to_vec',
      'burn::tensor::TensorData::into_vec', 'burn::tensor::TensorData::as_mut_slice', 'core::slice::to_vec', 'std::iter::Iterator::cloned', 'std::iter::Iterator::copied',
      'ndarray::ArrayBase::into_dimensionality', 'std::hint::must_use', 'std::sync::Arc::new', 'std::boxed::Box::new',
@@ -95,6 +94,17 @@ def h_alias_val(vf, node, fn, args):
     v = vf.deref(args[0])
     if isinstance(v, Seq):
         return v
+    return v
+
+
+@reg('ALIAS', 'burn::tensor::Tensor::detach', 'burn::tensor::Tensor::inner', 'burn::tensor::Tensor::from_inner',
+     'burn::tensor::Tensor::set_require_grad', 'burn::tensor::Tensor::no_grad')
+def h_detach(vf, node, fn, args):
+    """value-preserving, but cuts the autodiff graph: kept visible when the evaluation asks for it
+    (density bodies, where a detached factor changes the gradient handed to HMC/NUTS)"""
+    v = vf.deref(args[0])
+    if getattr(vf, 'graph_cuts_visible', False):
+        return T.app(fn.get('name', 'detach'), tt(vf, v))
     return v
 
 
